@@ -17,7 +17,7 @@ def fieldsOK (n : Ast) : Bool :=
   | none => true
 
 /-- classes whose instances have no child nodes (all their fields are strings / ints / None) -/
-def leafKinds : List String := ["Name", "alias", "Global", "_AliasEnd"]
+def leafKinds : List String := ["Name", "alias", "Global", "Nonlocal", "_AliasEnd"]
 
 def Ast.isScalar : Ast → Bool
   | .node .. => false
